@@ -397,5 +397,55 @@ func genPolygon(t *rapid.T, sc sizeClass) poly {
 	default:
 		p = genRegular(t, sc)
 	}
+	if rapid.IntRange(0, 4).Draw(t, "short-edge") == 0 {
+		p = withShortEdge(t, p)
+	}
 	return place(t, p)
+}
+
+// withShortEdge gives the polygon one edge far shorter than its other edges (1e-12 .. 2e-9 long, below and
+// around the library's geometric tolerance of 1e-9): a near-repeated vertex on a side (a finely sampled
+// curve whose samples almost coincide somewhere) or a tiny chamfer that replaces a corner. The polygon
+// stays simple (re-verified exactly by the caller) and every edge is a genuine edge of the outline.
+func withShortEdge(t *rapid.T, p poly) poly {
+	n := len(p.vs)
+	if n < 3 {
+		return p
+	}
+	i := rapid.IntRange(0, n-1).Draw(t, "short-edge.at")
+	d := rapid.SampledFrom([]float64{1e-10, 3e-10, 9e-10, 1e-11, 1e-12, 2e-9, 5e-10}).Draw(t, "short-edge.length")
+	a, b, prev := p.vs[i], p.vs[(i+1)%n], p.vs[(i+n-1)%n]
+	toward := func(from, to v2.Vec, d float64) v2.Vec {
+		l := math.Hypot(to.X-from.X, to.Y-from.Y)
+		return v2.Vec{X: from.X + (to.X-from.X)*(d/l), Y: from.Y + (to.Y-from.Y)*(d/l)}
+	}
+	var ins []v2.Vec
+	if rapid.Bool().Draw(t, "short-edge.chamfer") {
+		// the corner a is cut off: prev -> a1 -> a2 -> b with |a1 a2| ~ d
+		a1, a2 := toward(a, prev, d), toward(a, b, d)
+		if a1 == a2 || a1 == prev || a2 == b {
+			return p
+		}
+		ins = []v2.Vec{a1, a2}
+		p.notes = append(p.notes, "short-edge:chamfer")
+	} else {
+		// a second vertex d away from a on the edge a -> b
+		a2 := toward(a, b, d)
+		if a2 == a || a2 == b {
+			return p
+		}
+		if a.X == b.X {
+			a2.X = a.X
+		}
+		if a.Y == b.Y {
+			a2.Y = a.Y
+		}
+		ins = []v2.Vec{a, a2}
+		p.notes = append(p.notes, "short-edge:near-repeated-vertex")
+	}
+	vs := append([]v2.Vec(nil), p.vs[:i]...)
+	vs = append(vs, ins...)
+	vs = append(vs, p.vs[i+1:]...)
+	p.vs = vs
+	return p
 }
